@@ -573,6 +573,19 @@ func (w *World) fire(t *Trigger, p *Proc) {
 			p.gate()
 		}
 	case "panic":
+		if p != nil && p.Parent != nil {
+			// a panic anywhere in a plugin process (also on a goroutine of a
+			// library that no trap wraps) is that process crashing with status 2
+			// and the trace on its stderr
+			if p.Fd2 != nil {
+				p.Fd2.writeRaw([]byte("panic: simulated panic at " + t.Key + "\n\ngoroutine 1 [running]:\nmain.main()\n"))
+			}
+			p.Crash(2, "panic at "+t.Key)
+			if Cur() == p {
+				p.gate()
+			}
+			return
+		}
 		panic("simulated panic at " + t.Key)
 	case "sleep":
 		var ns int64
